@@ -25,6 +25,7 @@ from suds.mx.typer import Typer
 from suds.resolver import Frame, GraphResolver
 from suds.sax.element import Element
 from suds.sudsobject import Factory
+from suds.xsd.sxbasic import Element as SchemaElement
 
 from logging import getLogger
 log = getLogger(__name__)
@@ -229,6 +230,11 @@ class Typed(Core):
         if content.type.optional():
             return True
         for a in content.ancestry:
+            # An element among the ancestors is the owner of the anonymous
+            # type being marshalled; whether it may be left out says nothing
+            # about its content.
+            if isinstance(a, SchemaElement):
+                continue
             if a.optional() or a.choice():
                 return True
         return False
